@@ -95,6 +95,7 @@ func c16Run(fs *Facts) {
 		fs.Err("%v", err)
 		fs.Tri("summonTakesVigil", Unknown, hydraPath)
 		fs.Tri("summonWaitsForUnmap", Unknown, hydraPath)
+		fs.Tri("stopWaitsUntilClosed", Unknown, hydraPath)
 		return
 	}
 	// summonWaitsForUnmap: the branch that waits for a closing instance ends with `continue` (back to the map lookup)
@@ -117,6 +118,63 @@ func c16Run(fs *Facts) {
 			return true
 		})
 		fs.Tri("summonWaitsForUnmap", res, where)
+	}
+	// stopWaitsUntilClosed: every return inside GracefulStop's wait loop is guarded by `<count> == 0`, or follows the
+	// forced close and its 30 s wait
+	if gs := hy.Func("hydra", "GracefulStop"); gs == nil {
+		fs.Tri("stopWaitsUntilClosed", Unknown, hydraPath)
+	} else {
+		res, where := Unknown, hydraPath+":"+itoa(hy.Line(gs))
+		var loop *ast.ForStmt
+		for _, stt := range gs.Body.List {
+			if fl, ok := stt.(*ast.ForStmt); ok {
+				loop = fl
+			}
+		}
+		if loop != nil && loop.Cond == nil {
+			res = Yes
+			var visit func(n ast.Node, guarded bool)
+			visit = func(n ast.Node, guarded bool) {
+				switch x := n.(type) {
+				case *ast.FuncLit:
+					return
+				case *ast.IfStmt:
+					cond := hy.Str(x.Cond)
+					g := guarded || (strings.Contains(cond, "== 0") && (strings.Contains(cond, "openedSwamps") || strings.Contains(cond, "CountActiveSwamps")))
+					forced := false
+					for _, st := range x.Body.List {
+						if es, ok := st.(*ast.ExprStmt); ok && strings.Contains(hy.Str(es.X), "time.Sleep(30") {
+							forced = true
+						}
+						if _, ok := st.(*ast.ReturnStmt); ok && !(g || forced) {
+							res, where = No, hydraPath+":"+itoa(hy.Line(st))
+						}
+						if _, ok := st.(*ast.ReturnStmt); !ok {
+							visit(st, g)
+						}
+					}
+					if x.Else != nil {
+						visit(x.Else, guarded)
+					}
+					return
+				case *ast.BlockStmt:
+					for _, st := range x.List {
+						if _, ok := st.(*ast.ReturnStmt); ok && !guarded {
+							res, where = No, hydraPath+":"+itoa(hy.Line(st))
+						} else {
+							visit(st, guarded)
+						}
+					}
+					return
+				case *ast.BranchStmt:
+					if x.Tok.String() == "break" && !guarded {
+						res, where = No, hydraPath+":"+itoa(hy.Line(x))
+					}
+				}
+			}
+			visit(loop.Body, false)
+		}
+		fs.Tri("stopWaitsUntilClosed", res, where)
 	}
 	if s := hy.Func("hydra", "SummonSwamp"); s == nil {
 		fs.Tri("summonTakesVigil", Unknown, hydraPath)
